@@ -53,6 +53,18 @@ PROPS = {
         "technique": "Lean 4 proof (induction over element lists and tapes) + source translation + correspondence with independent digest recomputation",
         "assumptions": ["the randomness tape eventually yields a fresh id (loop termination is probabilistic in the code)"],
     },
+    "C10": {
+        "rule": "a non-canonical CBOR emitter (non-minimal integer and length heads, indefinite-length byte strings / arrays / maps, permuted map keys, unknown extra map entries; each form alone, then mixed) produces IssuerSignedItemBytes wrapped in a shortest-head tag 24; "
+                "each goes through Tag24 decode/encode and from_bytes, repeated cycles, then whole documents with such items and a non-canonically encoded protected header go through device::Document stringify/parse cycles, SessionManagerInit/SessionManager stringify/parse, prepare_response, retrieve_response; "
+                "the decrypted DeviceResponse must carry the identical item bytes, protected bytes, payload, signature and x5chain bytes. Distinct by wire bytes",
+        "xlate_items": [],
+        "trusted_base": ["Model/Wire.lean Tag24 and CoseSign1 (hand-written from tag24.rs / cose.rs), validated per item against the real decoder incl. the typed view of non-canonical bytes",
+                         "Model/Cbor.lean decoder accepts the same non-canonical forms as ciborium (validated on the generated population, not proved about ciborium)"],
+        "level_text": "Lean theorems (any payload type, any bytes): an accepted embedded item is re-emitted as the identical CBOR item; its typed view is the decoding of the kept bytes; with a shortest outer head the wire bytes are reproduced; any number of store/load cycles returns the same item (induction); COSE protected bytes, payload, signature and unprotected entries (x5chain) survive parse/emit. Tied by a non-canonical emitter driven through decode, storage cycles and real transfer.",
+        "level_note": "Trusted: Lean kernel; ciborium/coset behaviour on non-canonical input as modelled and validated; floats and bignum tags excluded from the non-canonical generator (ciborium normalises them, the typed view would differ although the kept bytes do not).",
+        "technique": "Lean 4 proof (case analysis + induction over cycles) + non-canonical-encoding correspondence",
+        "assumptions": ["outer tag-24 byte-string head in shortest form (as the property states)"],
+    },
     "C13": {
         "rule": "every call sequence up to length 3 (quick) / 4 (thorough) over {handle_request(valid | not-CBOR plaintext | non-request plaintext | undecryptable | garbage), "
                 "prepare_response(0,1,2 documents), get_next_signature_payload, submit_next_signature(real | invented bytes), response_ready, retrieve_response} from a fresh established session, "
